@@ -720,6 +720,12 @@ class ContextStateTransaction(_TransactionBase):
             state_container.descriptor_container = descr
             state_container.DescriptorVersion = state_container.descriptor_container.DescriptorVersion
 
+        if state_container.Handle in self._state_updates:
+            msg = f'Context State {state_container.Handle} already in updated set!'
+            raise ValueError(msg)
+        if self._mdib.context_states.handle.get_one(state_container.Handle, allow_none=True) is not None:
+            msg = f'ContextState with handle={state_container.Handle} already exists'
+            raise ValueError(msg)
         if adjust_state_version:
             self._mdib.context_states.set_version(state_container)
         self._state_updates[state_container.Handle] = TransactionItem(None, state_container)
